@@ -156,9 +156,8 @@ theorem acyclic_unaffected (p : Program) (wf : WFProgram p) (roots : List Key)
   rw [← hdk]
   simp [valOf, findDone_of_mem q.inv.nodup_mkeys hd]
 
-/-- "all choices of the queried roots": full statement — the value of a key does not depend on
-    which roots were requested, nor in which order.  NOT proved in general (left to the oracle of the
-    harness, which re-runs every case under every permutation of its roots). -/
+/-- "all choices of the queried roots": the value of a key does not depend on which roots were
+    requested, nor in which order. -/
 def C06_order_independent_full_statement : Prop :=
   ∀ (p : Program), WFProgram p → ∀ (roots₁ roots₂ : List Key),
     (∀ r ∈ roots₁, r < p.length) → (∀ r ∈ roots₂, r < p.length) →
@@ -166,18 +165,68 @@ def C06_order_independent_full_statement : Prop :=
       evalRoots p (fuelFor p) roots₂ {} = .ok (vs₂, st₂) →
       ∀ k, k ∈ roots₁ → k ∈ roots₂ → valOf st₁.memo k = valOf st₂.memo k
 
-/-- Order independence for every key below which the static read graph has no cycle (its value is
-    the plain from-scratch value whatever else was requested, before or after, cyclic or not). -/
-theorem cycle_order_independent_partial (p : Program) (wf : WFProgram p) (roots₁ roots₂ : List Key)
+/-- the memo of a finished evaluation is a sequence of blocks (Lemmas/CycleBlocks.lean): unmarked
+    entries whose value is their executor over the older entries, and detected cycles whose members'
+    executors, fed from the entries older than the cycle, each stop at the next member -/
+theorem eval_blocks (p : Program) (wf : WFProgram p) (roots : List Key)
+    (hr : ∀ r ∈ roots, r < p.length) (fuel : Nat) (hfuel : fuelFor p ≤ fuel)
+    {vs : List Val} {st : St} (h : evalRoots p fuel roots {} = .ok (vs, st)) :
+    Blocks p st.memo ∧ (mkeys st.memo).Nodup := by
+  obtain ⟨q, _, _⟩ := eval_facts p wf roots hr fuel hfuel h
+  exact ⟨inv2_blocks_of_empty q.inv2 q.empty, q.inv.nodup_mkeys⟩
+
+/-- **Order independence** ("for every program and all choices of the queried roots").  For every
+    well-formed program — any read graph, conditional reads included — any two lists of roots
+    (different roots, different orders, different lengths, repetitions) and any sufficient fuels:
+    every key that both evaluations computed has the same value in both, and is defaulted in both or
+    in neither.  In particular it does not matter through which member a strongly connected component
+    is entered.  (Proof: the final memo has a description that does not mention the traversal, and
+    such a description is unique — Lemmas/CycleUniq.lean.) -/
+theorem cycle_order_independent (p : Program) (wf : WFProgram p) (roots₁ roots₂ : List Key)
     (hr₁ : ∀ r ∈ roots₁, r < p.length) (hr₂ : ∀ r ∈ roots₂, r < p.length)
+    (fuel₁ fuel₂ : Nat) (hf₁ : fuelFor p ≤ fuel₁) (hf₂ : fuelFor p ≤ fuel₂)
     {vs₁ vs₂ : List Val} {st₁ st₂ : St}
-    (h₁ : evalRoots p (fuelFor p) roots₁ {} = .ok (vs₁, st₁))
-    (h₂ : evalRoots p (fuelFor p) roots₂ {} = .ok (vs₂, st₂))
-    (k : Key) (hk₁ : k ∈ roots₁) (hk₂ : k ∈ roots₂) (hac : NoCycleBelow p k) :
-    valOf st₁.memo k = valOf st₂.memo k := by
-  obtain ⟨_, v₁, e₁, s₁⟩ := acyclic_unaffected p wf roots₁ hr₁ _ (Nat.le_refl _) h₁ k hk₁ hac
-  obtain ⟨_, v₂, e₂, s₂⟩ := acyclic_unaffected p wf roots₂ hr₂ _ (Nat.le_refl _) h₂ k hk₂ hac
-  rw [e₁, e₂, ← s₁, ← s₂]
+    (h₁ : evalRoots p fuel₁ roots₁ {} = .ok (vs₁, st₁))
+    (h₂ : evalRoots p fuel₂ roots₂ {} = .ok (vs₂, st₂)) :
+    (∀ k, k ∈ mkeys st₁.memo → k ∈ mkeys st₂.memo → valOf st₁.memo k = valOf st₂.memo k) ∧
+    (∀ d₁ ∈ st₁.memo, ∀ d₂ ∈ st₂.memo, d₁.key = d₂.key → d₁.marked = d₂.marked ∧ d₁.val = d₂.val) := by
+  obtain ⟨b₁, n₁⟩ := eval_blocks p wf roots₁ hr₁ fuel₁ hf₁ h₁
+  obtain ⟨b₂, n₂⟩ := eval_blocks p wf roots₂ hr₂ fuel₂ hf₂ h₂
+  exact ⟨fun k k₁ k₂ => blocks_unique b₁ b₂ n₁ n₂ k k₁ k₂,
+    fun d₁ m₁ d₂ m₂ hk => blocks_unique_marked b₁ b₂ n₁ n₂ m₁ m₂ hk⟩
+
+/-- the values RETURNED for a root that both requests contain are equal, wherever it stands in the two
+    lists (permutations of one list of roots are the special case) -/
+theorem cycle_order_independent_roots (p : Program) (wf : WFProgram p) (roots₁ roots₂ : List Key)
+    (hr₁ : ∀ r ∈ roots₁, r < p.length) (hr₂ : ∀ r ∈ roots₂, r < p.length)
+    (fuel₁ fuel₂ : Nat) (hf₁ : fuelFor p ≤ fuel₁) (hf₂ : fuelFor p ≤ fuel₂)
+    {vs₁ vs₂ : List Val} {st₁ st₂ : St}
+    (h₁ : evalRoots p fuel₁ roots₁ {} = .ok (vs₁, st₁))
+    (h₂ : evalRoots p fuel₂ roots₂ {} = .ok (vs₂, st₂))
+    (i j : Nat) (hi : i < roots₁.length) (hj : j < roots₂.length) (hi' : i < vs₁.length) (hj' : j < vs₂.length)
+    (hij : roots₁[i] = roots₂[j]) : vs₁[i] = vs₂[j] := by
+  obtain ⟨_, _, hv₁⟩ := eval_facts p wf roots₁ hr₁ fuel₁ hf₁ h₁
+  obtain ⟨_, _, hv₂⟩ := eval_facts p wf roots₂ hr₂ fuel₂ hf₂ h₂
+  have e₁ := hv₁ i hi hi'
+  have e₂ := hv₂ j hj hj'
+  have := (cycle_order_independent p wf roots₁ roots₂ hr₁ hr₂ fuel₁ fuel₂ hf₁ hf₂ h₁ h₂).1 roots₁[i]
+    (valOf_mem e₁) (by rw [hij]; exact valOf_mem e₂)
+  rw [e₁, hij, e₂] at this
+  exact Option.some.inj this
+
+/-- the full statement holds -/
+theorem C06_order_independent_full : C06_order_independent_full_statement := by
+  intro p wf roots₁ roots₂ hr₁ hr₂ vs₁ st₁ vs₂ st₂ h₁ h₂ k k₁ k₂
+  obtain ⟨_, hl₁, hv₁⟩ := eval_facts p wf roots₁ hr₁ _ (Nat.le_refl _) h₁
+  obtain ⟨_, hl₂, hv₂⟩ := eval_facts p wf roots₂ hr₂ _ (Nat.le_refl _) h₂
+  obtain ⟨i, hi, hik⟩ := List.getElem_of_mem k₁
+  obtain ⟨j, hj, hjk⟩ := List.getElem_of_mem k₂
+  have e₁ := hv₁ i hi (by rw [hl₁]; exact hi)
+  have e₂ := hv₂ j hj (by rw [hl₂]; exact hj)
+  rw [hik] at e₁
+  rw [hjk] at e₂
+  exact (cycle_order_independent p wf roots₁ roots₂ hr₁ hr₂ _ _ (Nat.le_refl _) (Nat.le_refl _) h₁ h₂).1 k
+    (valOf_mem e₁) (valOf_mem e₂)
 
 -- ------------------------------------------------------------------ non-vacuity
 
@@ -254,5 +303,22 @@ def exMixed : Program :=
 
 example : okVals (evalRoots exMixed (fuelFor exMixed) [0, 1] {}) = some [-7, 6] := by decide
 example : evalSpec exMixed exMixed.length 1 = some 6 := by decide
+
+/-- order independence is about real differences of traversal: in `exDesign` the cycle `B ↔ D` is
+    entered through `B` (roots `[0]` or `[1]`) or through `D` (roots `[2]`), the memos differ as
+    lists, the values do not -/
+example : okMarks (evalRoots exDesign (fuelFor exDesign) [2, 0] {}) = some [(0, false), (2, true), (1, true)] := by
+  decide
+
+/-- a conditional program: `0` reads `1` and, only if that returned `1`'s default, `2`; `1` reads `0`;
+    `2` reads `0`.  Entered through `0`, `1` or `2` the performed cycle is `0 ↔ 1`; `2` is outside. -/
+def exCond : Program :=
+  [ { dflt := -1, prog := .ask 1 fun v => if v = -2 then .ask 2 fun w => .ret w else .ret v },
+    { dflt := -2, prog := .ask 0 fun v => .ret (v + 20) },
+    { dflt := -3, prog := .ask 0 fun v => .ret (v + 30) } ]
+
+example : okVals (evalRoots exCond (fuelFor exCond) [0, 1, 2] {}) = some [-1, -2, 29] := by decide
+example : okVals (evalRoots exCond (fuelFor exCond) [2, 1, 0] {}) = some [29, -2, -1] := by decide
+example : okVals (evalRoots exCond (fuelFor exCond) [1, 2, 0] {}) = some [-2, 29, -1] := by decide
 
 end Qbice.Cycle
